@@ -330,6 +330,17 @@ def check_containment(ctx, pre, T, tr, rng, npoints):
         d = rng.normal(size=(m, 2)) * size * float(np.exp(rng.uniform(np.log(1e-6), np.log(2.0))))
         d -= d.mean(axis=0)
         shapes.append(("polygon", sh.Polygon([(float(p[0] + dx), float(p[1] + dy)) for dx, dy in d])))
+        # a triangle-shaped source region (vertices in the (x, y) order of every other shape): its reference point is the mean of its
+        # vertices, as for the polygon with the same three vertices
+        tv = [(float(p[0] + dx), float(p[1] + dy)) for dx, dy in (d[:3] - d[:3].mean(axis=0))]
+        tshape = sh.Triangle(*tv)
+        pshape = sh.Polygon(list(tv))
+        tmean = (float(np.mean([q[0] for q in tv])), float(np.mean([q[1] for q in tv])))
+        ctx.check(abs(float(tshape.x) - tmean[0]) <= 1e-12 * (1 + abs(tmean[0])) and abs(float(tshape.y) - tmean[1]) <= 1e-12 * (1 + abs(tmean[1]))
+                  and abs(float(pshape.x) - float(tshape.x)) <= 1e-12 * (1 + abs(tmean[0])) and abs(float(pshape.y) - float(tshape.y)) <= 1e-12 * (1 + abs(tmean[1])),
+                  pre + ":shape.reference_point_is_vertex_mean", vertices_xy=tv, vertex_mean=tmean, triangle_reference=(float(tshape.x), float(tshape.y)),
+                  polygon_reference=(float(pshape.x), float(pshape.y)))
+        shapes.append(("triangle", tshape))
         for name, shape in shapes:
             ref_pt = (float(shape.x), float(shape.y))       # what the shape itself calls its reference point
             marg = bary(tr, ref_pt).min(axis=1)
@@ -382,6 +393,14 @@ def check_level(ctx, pre, T, rng, npoints, deep):
         st, sl = v
         ctx.check(same_multiset(st, tr[idx]) and sl == len(idx), pre + ":for_indexes.same_triangles", triangles=tr, indexes=idx,
                   expected=tr[idx], got=st)
+    # --- the same selection handed over as a boolean mask (what Shape.mask returns): the selected triangles, in order
+    bm = np.zeros(n, dtype=bool)
+    bm[idx] = True
+    ok, v = ctx.guarded(pre + ":for_indexes.same_triangles", lambda: (lambda S: (tri(S), len(S)))(T.for_indexes(bm)))
+    if ok:
+        st, sl = v
+        ctx.check(same_multiset(st, tr[bm]) and sl == int(bm.sum()), pre + ":for_indexes.same_triangles", selector="boolean mask", triangles=tr, mask=bm,
+                  expected=tr[bm], got=st)
     # --- with_vertices: connectivity is kept, so an affine map of the vertices maps the triangles
     M = rng.normal(size=(2, 2)) + 2.0 * np.eye(2)
     t = rng.normal(size=2)
